@@ -249,7 +249,7 @@ def gen_script(rng, knobs):
       new_style = rng.choice(knobs["styles"])
       if new_style != style:
         # clean switch: erase both memories, let the screen rest
-        script += [["gap", rng.choice([10, 40])], ["ctl", "EDM"], ["ctl", "ENM"], ["gap", rng.choice([10, 60])]]
+        script += [["gap", rng.choice([20, 40])], ["ctl", "EDM"], ["ctl", "ENM"], ["gap", rng.choice([20, 60])]]
         style = new_style
     first = False
     if style == "pop":
@@ -273,12 +273,12 @@ def gen_script(rng, knobs):
         if rng.random() < 0.3:
           script.append(["ctl", "EDM"])
           if rng.random() < 0.5:
-            script.append(["gap", rng.choice([2, 10, 30])])
+            script.append(["gap", rng.choice([20, 30])])
         script.append(["ctl", "EOC"])
         k += 1
-        script.append(["gap", rng.choice([5, 20, 45, 90, 300])])
+        script.append(["gap", rng.choice([20, 45, 90, 300])])
         if rng.random() < 0.35:
-          script += [["ctl", "EDM"], ["gap", rng.choice([5, 30, 120])]]
+          script += [["ctl", "EDM"], ["gap", rng.choice([20, 30, 120])]]
     elif style == "roll":
       depth = rng.choice([2, 3, 4])
       script.append(["ctl", "RU%d" % depth])
@@ -290,11 +290,14 @@ def gen_script(rng, knobs):
         row_units = gen_row_units(rng, rng.choice([15, 15, 15, 14, 13, 12, 1, 2, 3, 4]), rng.choice([10, 20, 30]), state)
         script += row_units
         k += 1
-        script.append(["gap", rng.choice([5, 20, 45, 90])])
+        script.append(["gap", rng.choice([20, 45, 90])])
         if rng.random() < 0.1:
           script.append(["ctl", "RU%d" % depth])  # encoders repeat the style code
+        elif rng.random() < 0.08:
+          depth = rng.choice([2, 3, 4])  # the viewer-visible depth changes while rows are displayed
+          script += [["ctl", "RU%d" % depth], ["gap", rng.choice([20, 45])]]
       if rng.random() < 0.5:
-        script += [["ctl", "EDM"], ["gap", rng.choice([5, 30, 120])]]
+        script += [["ctl", "EDM"], ["gap", rng.choice([20, 30, 120])]]
     else:
       script.append(["ctl", "RDC"])
       n = rng.choice([1, 2, 3])
@@ -307,10 +310,10 @@ def gen_script(rng, knobs):
         used.add(row)
         script += gen_row_units(rng, row, rng.choice([8, 16, 30]), state)
         k += 1
-        script.append(["gap", rng.choice([5, 20, 45, 90])])
-      script += [["ctl", "EDM"], ["gap", rng.choice([5, 30, 120])]]
+        script.append(["gap", rng.choice([20, 45, 90])])
+      script += [["ctl", "EDM"], ["gap", rng.choice([20, 30, 120])]]
       if rng.random() < 0.5:
         script.append(["ctl", "ENM"])
   # leave the last caption on screen for a while, then erase it
-  script += [["gap", rng.choice([30, 90])], ["ctl", "EDM"], ["gap", 10]]
+  script += [["gap", rng.choice([30, 90])], ["ctl", "EDM"], ["gap", 20]]
   return script
